@@ -4,6 +4,7 @@ extern crate alloc;
 pub mod common;
 pub mod vt;
 pub mod props;
+pub mod scmp;
 #[macro_use]
 pub mod catalogue;
 #[macro_use]
